@@ -22,14 +22,15 @@ ASSUMPTIONS = [
 ]
 EXHAUSTIVE = {'quick': False, 'thorough': False}
 
-MODULI = [None, 1, 2, 7, 10, 2.5]
+MODULI = [None, 1, 2, 7, 10, 2.5, -3]
 ALPHA7 = [('inc', None), ('inc', 3), ('dec', None), ('dec', 5), ('put', 9), ('put', None), ('reset', None)]
 ALPHA4 = [('inc', None), ('dec', 5), ('put', -9), ('reset', None)]
 KEY = "<Counter 'c'>"
 
 
 def scenarios(rng, tier):
-    inits = [(0, None), (3, None), (-4, None), (12, 5), (3, -11)]
+    # initdef None = the keyword is omitted (the documented default 0 applies)
+    inits = [(0, None), (3, None), (-4, None), (12, 5), (3, -11), (None, None), (None, 7)]
     if tier == 'quick':
         # exhaustive length 4 for two rotating (modulo, init) combinations + all moduli length 3
         for mod in MODULI:
@@ -53,7 +54,7 @@ def scenarios(rng, tier):
     yield {'mod': 0.0, 'initdef': 0, 'restored': None, 'ops': []}
     for _ in range(nrandom):
         use_float = rng.random() < 0.4
-        mod = rng.choice([None, 1, 2, 7, 10, 2.5, 3, 0.5] if use_float else [None, 1, 2, 7, 10, 3, 1000003, 2 ** 70 + 1])
+        mod = rng.choice([None, 1, 2, 7, 10, 2.5, 3, 0.5, -2.5, -4] if use_float else [None, 1, 2, 7, 10, 3, 1000003, 2 ** 70 + 1, -7, -(2 ** 65)])
 
         def num():
             r = rng.random()
@@ -72,7 +73,8 @@ def scenarios(rng, tier):
                 ops.append([k, num() if rng.random() < 0.9 else None])
             else:
                 ops.append([k, num() if rng.random() < 0.7 else None])
-        yield {'mod': mod, 'initdef': num(), 'restored': num() if rng.random() < 0.4 else None, 'ops': ops}
+        yield {'mod': mod, 'initdef': num() if rng.random() < 0.9 else None,
+               'restored': num() if rng.random() < 0.4 else None, 'ops': ops}
 
 
 def shrink(scn):
@@ -84,13 +86,16 @@ def shrink(scn):
 def run_impl(scn):
     lines, trace, steps = [], [], []
     mod, initdef, restored = scn['mod'], scn['initdef'], scn['restored']
-    lines.append(f"counter reset {enc_opt(mod, 'n')} {enc(initdef)} {enc_opt(restored)}")
+    # an omitted initdef: the model is told the documented default (0); `translated_counter_init_defaults`
+    # ties that default to the signature
+    lines.append(f"counter reset {enc_opt(mod, 'n')} {enc(0 if initdef is None else initdef)} {enc_opt(restored)}")
     sim = Sim()
 
     def build(circuit):
         if restored is not None:
             circuit.set_persistent_data({KEY: restored})
-        return edzed.Counter('c', modulo=mod, initdef=initdef, persistent=restored is not None)
+        kw = {} if initdef is None else {'initdef': initdef}
+        return edzed.Counter('c', modulo=mod, persistent=restored is not None, **kw)
 
     async def drive(sim, cnt):
         trace.append('ok ' + enc(cnt.output))
@@ -125,7 +130,7 @@ def run_impl(scn):
     if sim.init_error is not None:
         trace.append('err Init')
     changing = sum(1 for o in scn['ops'] if not (o[0] == 'put' and o[1] is None))
-    tags = [f'mod={mod}', f'len={min(len(scn["ops"]), 10)}' + ('+' if len(scn['ops']) > 10 else '')]
+    tags = [f'mod={mod}', 'initdef=' + ('omitted' if initdef is None else 'given'), f'len={min(len(scn["ops"]), 10)}' + ('+' if len(scn['ops']) > 10 else '')]
     tags += [f'op={o[0]}{"" if o[1] is not None else "-noarg"}' for o in scn['ops'][:1]]
     return {'lines': lines, 'trace': trace, 'steps': steps, 'tags': tags, 'nontrivial': changing > 0,
             'final_error': repr(sim.final_error)}
@@ -149,7 +154,8 @@ def oracle(scn, res):
         return out
     if not steps or steps[0][0] != 'init':
         return [{'clause': 'init', 'what': f'counter did not initialise: {steps[:1]}'}]
-    start = scn['restored'] if scn['restored'] is not None else scn['initdef']
+    initdef = 0 if scn['initdef'] is None else scn['initdef']
+    start = scn['restored'] if scn['restored'] is not None else initdef
     acc = _reduce(Fraction(start), mod)
     if Fraction(steps[0][1]) != acc:
         out.append({'clause': 'initial_value_reduced', 'what': f'initial output {steps[0][1]!r}, expected {acc}'})
@@ -167,7 +173,7 @@ def oracle(scn, res):
         elif op == 'put':
             acc = Fraction(arg)
         elif op == 'reset':
-            acc = Fraction(scn['initdef'])
+            acc = Fraction(initdef)
         acc = _reduce(acc, mod)
         if kind != 'ret' or aborted:
             out.append({'clause': 'event_handled', 'what': f'step {i}: {op} {arg!r} -> {kind} {val}'})
@@ -182,5 +188,8 @@ def oracle(scn, res):
             break
         if mod is not None and mod > 0 and not 0 <= output < mod:
             out.append({'clause': 'range_invariant', 'what': f'step {i}: output {output!r} outside [0,{mod})'})
+            break
+        if mod is not None and mod < 0 and not mod < output <= 0:
+            out.append({'clause': 'range_invariant', 'what': f'step {i}: output {output!r} outside ({mod},0]'})
             break
     return out
